@@ -105,6 +105,7 @@ type splitReader struct {
 	sizes       []int
 	calls       int
 	eofWithData bool
+	endErr      error // what the reader reports at its end instead of io.EOF (a connection that broke)
 }
 
 func (s *splitReader) Read(p []byte) (int, error) {
@@ -112,6 +113,9 @@ func (s *splitReader) Read(p []byte) (int, error) {
 		return 0, nil
 	}
 	if s.off >= len(s.b) {
+		if s.endErr != nil {
+			return 0, s.endErr
+		}
 		return 0, io.EOF
 	}
 	n := len(p)
@@ -127,6 +131,9 @@ func (s *splitReader) Read(p []byte) (int, error) {
 	copy(p, s.b[s.off:s.off+n])
 	s.off += n
 	if s.eofWithData && s.off == len(s.b) {
+		if s.endErr != nil {
+			return n, s.endErr
+		}
 		return n, io.EOF
 	}
 	return n, nil
